@@ -456,7 +456,7 @@ PROPS["C11"] = {
     "theorems": ["C11_put_ids_distinct", "C11_put_counter", "C11_forward_frame", "C11_stray_to_sender_discarded",
                  "C11_no_transport_discarded", "C11_unknown_to_receiver_spawns", "C11_command_frame",
                  "C11_cleanup_only_removes", "C11_receiver_addresses_only_its_peer", "C11_receiver_addresses_initial",
-                 "C11_sender_addresses_only_its_peer"],
+                 "C11_sender_addresses_only_its_peer", "C11_history_put_ids_distinct", "C11_history_put_ids_own"],
     "components": ["daemon"],
     "rule": ("cases = scripts against TWO real Daemons (entities 1 and 2; entity 3 has no transport anywhere) whose three handlers "
              "(forward_pdu, process_primitive, cleanup_transactions) are called one at a time through cfg(cfdp_verif) hooks on "
@@ -477,7 +477,8 @@ PROPS["C11"] = {
                     "in; the metadata a transaction receives is its own; after the final run no transaction is left registered "
                     "(stray-spawned receive transactions ended by their own limits); a fresh transfer afterwards completes (the "
                     "daemon keeps serving)."),
-    "level_text": ("Proof (PARTIAL) on the routing model: up to 2^(8w) consecutive Put requests get pairwise distinct ids; a PDU reaches, "
+    "level_text": ("Proof (PARTIAL) on the routing model: up to 2^(8w) consecutive Put requests get pairwise distinct ids - also over every "
+                   "history of handler calls in between (PDUs forwarded, strays, commands, clean-ups), and all carry this daemon's entity id; a PDU reaches, "
                    "creates or replaces only the transaction registered under its own (source entity, sequence number) and leaves every "
                    "other registration and the counter untouched; a response for a sender that does not exist and a PDU naming an "
                    "entity without transport change nothing and yield only a logged warning; a ToReceiver PDU with an unknown id "
